@@ -190,3 +190,47 @@ def _(u):
     made.clear()
     r = u.run(LIT, "RL4COLitModule._dataloader", {"a": d1, "b": d2}, 4, False, selfobj=mod, record=False)
     u.prove("loader.dict.int-batch-size", len(r) == 2 and made[0]["batch_size"] == 4 and made[1]["batch_size"] == 4)
+
+
+RFM = "rl4co/models/rl/reinforce/reinforce.py"
+
+
+@unit("reinforce.dataset_lifecycle", file=RFM, func="REINFORCE.on_train_epoch_end", props=("C17",))
+def _(u):
+    # history: at the end of an epoch the baseline is updated FIRST (epoch callback), then a fresh training set is drawn and
+    # wrapped by the (updated) baseline, so the extra values of the next epoch are those of the baseline used in that epoch;
+    # the loaders hand the wrapped training set out with the training batch size / shuffle flag, validation and test unshuffled
+    log = []
+    fresh = u.ns(tag="fresh-train-set")
+
+    def wrap(dataset, env, batch_size=None, device=None, **kw):
+        log.append(("wrap", dataset, batch_size))
+        return u.ns(wrapped=dataset, batch_size=batch_size, collate_fn="c")
+
+    def callback(policy, env=None, batch_size=None, device=None, epoch=None, dataset_size=None):
+        log.append(("callback", epoch, batch_size, dataset_size))
+
+    env = u.ns(dataset=lambda size, phase=None: (log.append(("dataset", size, phase)), fresh)[1])
+    made = []
+    u.stub(DataLoader=lambda dataset, batch_size=None, shuffle=None, num_workers=None, collate_fn=None, **kw: (made.append((dataset, batch_size, shuffle)), made[-1])[1],
+           get_lightning_device=lambda m: "cpu")
+    mod = u.obj(RFM, "REINFORCE", env=env, policy="policy", baseline=u.ns(wrap_dataset=wrap, epoch_callback=callback), val_batch_size=64, train_batch_size=32,
+                test_batch_size=16, data_cfg={"train_data_size": 1000, "val_data_size": 100}, current_epoch=0, trainer=u.ns(max_epochs=3),
+                shuffle_train_dataloader=True, dataloader_num_workers=0, train_dataset=u.ns(collate_fn="c0"), val_dataset=u.ns(collate_fn="c1"), test_dataset=u.ns(collate_fn="c2"))
+    u.inline((LIT, "RL4COLitModule.on_train_epoch_end"), (RFM, "REINFORCE.wrap_dataset"), (LIT, "RL4COLitModule._dataloader"), (LIT, "RL4COLitModule._dataloader_single"))
+    u.run(RFM, "REINFORCE.on_train_epoch_end", selfobj=mod, record=False)
+    kinds = [x[0] for x in log]
+    u.prove("epoch-end.order", kinds == ["callback", "dataset", "wrap"])
+    u.prove("epoch-end.callback-args", log[0][1:] == (0, 64, 100))
+    u.prove("epoch-end.fresh-train-set-of-configured-size", log[1][1:] == (1000, "train"))
+    u.prove("epoch-end.wraps-the-fresh-set", log[2][1] is fresh and log[2][2] == 64 and mod._attrs["train_dataset"].wrapped is fresh)
+    tl = u.run(LIT, "RL4COLitModule.train_dataloader", selfobj=mod, record=False)
+    vl = u.run(LIT, "RL4COLitModule.val_dataloader", selfobj=mod, record=False)
+    te = u.run(LIT, "RL4COLitModule.test_dataloader", selfobj=mod, record=False)
+    u.prove("loaders.train", tl[0] is mod._attrs["train_dataset"] and tl[1] == 32 and tl[2] is True)
+    u.prove("loaders.val-test-unshuffled", vl[0] is mod._attrs["val_dataset"] and vl[1] == 64 and vl[2] is False and te[0] is mod._attrs["test_dataset"] and te[1] == 16 and te[2] is False)
+    # last epoch: nothing is regenerated
+    log.clear()
+    mod._attrs["current_epoch"] = 2
+    u.run(RFM, "REINFORCE.on_train_epoch_end", selfobj=mod, record=False)
+    u.prove("epoch-end.last-epoch-no-new-dataset", [x[0] for x in log] == ["callback"])
